@@ -632,6 +632,20 @@ def run_shard(spec, ctx):
                     run_history(ctx, pre + seq, rec)
                     total += 1
                     ctx.cls("histories_with_a_category_named_after_a_quantity_type")
+        if spec["i"] == 0:
+            # symbols that merely contain a legacy fragment, registered as a unit or as a base unit, alone or next to
+            # the symbol the rewrite would turn them into: they are units like any other
+            for sym, rewritten in (("lbmole(lab)", "lbmol(lab)"), ("1000m3(st)", "Mm3(st)")):
+                for hist in (
+                    [["base", "L", "metre", "m"], ["cat", "L", {"quantity_type": "L"}], ["unit", "L", "n1", sym, "%f*100.0", "%f/100.0", None]],
+                    [["base", "L", "metre", "m"], ["unit", "L", "n1", sym, "%f*100.0", "%f/100.0", None], ["cat", "L", {"quantity_type": "L"}], ["cat", "depth", {"quantity_type": "L", "valid_units": [sym], "default_unit": sym}]],
+                    [["base", "T", "n", sym], ["cat", "T", {"quantity_type": "T"}], ["unit", "T", "n2", "s", "%f*2.0", "%f/2.0", None]],
+                    [["base", "L", "metre", "m"], ["cat", "L", {"quantity_type": "L"}], ["unit", "L", "n1", sym, "%f*100.0", "%f/100.0", None], ["unit", "L", "n2", rewritten, "%f*7.0", "%f/7.0", None]],
+                    [["base", "L", "metre", "m"], ["cat", "L", {"quantity_type": "L"}], ["unit", "L", "n2", rewritten, "%f*7.0", "%f/7.0", None], ["unit", "L", "n1", sym, "%f*100.0", "%f/100.0", None]],
+                ):
+                    run_history(ctx, hist, rec)
+                    total += 1
+                    ctx.cls("histories_with_a_symbol_containing_a_legacy_fragment")
         for L in range(1, depth + 1):
             run_all(L)
         ctx.exhaustive["registration histories over the %d-call alphabet" % nops] = "all of length <= %d" % depth
